@@ -445,7 +445,6 @@ func distFamily(env *Env) error {
 
 func init() { families["dist"] = distFamily }
 
-
 // ---- fault injection and free-running concurrency workload (C08) -----------------------------------------
 
 // faultyModel wraps a real model; its k-th Distance (resp. Sequence) call fails.
@@ -485,9 +484,9 @@ func (f *faultyModel) Sequence(i int) ([]uint8, error) {
 }
 
 type concCfg struct {
-	Np  int `json:"np"`
-	Nw  int `json:"nw"`
-	Cap int `json:"cap"`
+	Np  int   `json:"np"`
+	Nw  int   `json:"nw"`
+	Cap int   `json:"cap"`
 	Fd  []int `json:"fd"`
 	Fs  int   `json:"fs"`
 }
